@@ -387,7 +387,7 @@ Definition request (cf : config) (now : Z) (strat : Z) (mid : Z) (s : sim) (a : 
         match get_order name (mk_orders m) with
         | None => s
         | Some o =>
-          if negb (order_validation_ok o) || negb (market_open m) then with_orders (upd_order name (violation cs now) (mk_orders m)) (s_queue s)  (* _on_error marks the LIVE order *)
+          if negb (order_validation_ok o) || negb (market_open m) then s  (* refused by a control: the placed order keeps its status *)
           else match so_bet o, so_type o with
                | Some _, TLimit =>
                    if (match red with Some x => negb (x =? 0) && (remaining o - x <? 0) | None => false end) then s
@@ -401,7 +401,7 @@ Definition request (cf : config) (now : Z) (strat : Z) (mid : Z) (s : sim) (a : 
         match get_order name (mk_orders m) with
         | None => s
         | Some o =>
-          if negb (order_validation_ok o) || negb (market_open m) then with_orders (upd_order name (violation cs now) (mk_orders m)) (s_queue s)
+          if negb (order_validation_ok o) || negb (market_open m) then s
           else match so_bet o, so_type o with
                | Some _, TLimit =>
                    if persist_eqb (so_persist o) p then s
@@ -415,7 +415,7 @@ Definition request (cf : config) (now : Z) (strat : Z) (mid : Z) (s : sim) (a : 
         match get_order name (mk_orders m) with
         | None => s
         | Some o =>
-          if negb (order_validation_ok o) || negb (market_open m) then with_orders (upd_order name (violation cs now) (mk_orders m)) (s_queue s)
+          if negb (order_validation_ok o) || negb (market_open m) then s
           else match so_bet o, so_type o with
                | Some _, TLimit | Some _, TLoc =>
                    if so_price o =? price then s
